@@ -83,6 +83,25 @@ fn run(ctx: &mut Ctx, extra: &mut BTreeMap<String, String>) {
   run_sharded(ctx, 16, |c, k| {
     let mut rng = Rng::new(seed, 950 + k as u64);
     for _ in 0..n / 16 { let s = rng.next() >> 1; judge_program(c, s); }
+    // thorough, release: the lazy flat views walked PAST 2^32 elements inside one entry 17 levels coarser than depth_max (a counter or
+    // a bound held in 32 bits would only show there): element number 2^32 + small of flat_iter() and flat_iter_cell()
+    if c.thorough && !small && (k == 3 || k == 11) {
+      let dm = if k == 3 { 20u8 } else { 29 }; let d = dm - 17; let h = 5u64 << (2 * d); let first = h << 34;
+      let cells = vec![(d, h, true), (dm, ((h + 1) << 34) + 7, false)];
+      let b = to_bmoc(dm, &cells);
+      let case = Case::new("long-walk").u("dm", dm as u64).u("d", d as u64).u("h", h);
+      c.evals_n(2);
+      let n0: usize = (1usize << 32) + 5;
+      match catch(|| { let mut it = b.flat_iter(); (it.nth(n0), it.next()) }) {
+        Err(p) => c.violation("malformed-bmoc-from-flat_iter-long-walk", case.clone(), p),
+        Ok((x, y)) => if x != Some(first + n0 as u64) || y != Some(first + n0 as u64 + 1) { c.violation("malformed-bmoc-from-flat_iter-long-walk", case.clone(), format!("flat_iter element #{} = {:?} (next {:?}), expected {}", n0, x, y, first + n0 as u64)); }
+      }
+      match catch(|| { let mut it = b.flat_iter_cell(); it.nth(n0).map(|cl| (cl.hash, cl.is_full, cl.depth)) }) {
+        Err(p) => c.violation("malformed-bmoc-from-flat_iter_cell-long-walk", case.clone(), p),
+        Ok(x) => if x != Some((first + n0 as u64, true, dm)) { c.violation("malformed-bmoc-from-flat_iter_cell-long-walk", case.clone(), format!("flat_iter_cell element #{} = {:?}, expected hash {} full depth {}", n0, x, first + n0 as u64, dm)); }
+      }
+      c.hard("lazy-views-walked-past-2^32-elements-of-one-entry", &[dm as u64]);
+    }
   });
 }
 
